@@ -8,7 +8,7 @@ import json, os, sys
 HERE = os.path.dirname(os.path.dirname(os.path.abspath(__file__)))
 
 BASE = dict(nmin=0, nmax=2, klen=1, vlen=1, vlenmin=0, store=1, cache=1, variant=0, ops=1, decode=0,
-            cmps=1, preop=0, copyto=0, ncolls=1, trailing=0, secondgen=0, init=0, tailjunk=1, evictin=0, onlyop=-1, itermut=0, maxpinned=1, emptyname=0, viasnap=0, withcb=0, rootsonly=0, partial=0, reader2=0, iterfault=0)
+            cmps=1, preop=0, copyto=0, ncolls=1, trailing=0, secondgen=0, init=0, tailjunk=1, evictin=0, onlyop=-1, itermut=0, maxpinned=1, emptyname=0, viasnap=0, withcb=0, rootsonly=0, partial=0, reader2=0, iterfault=0, flushfault=0, maxfail=6)
 
 
 def run(harness, covers=None, budget=None, expect=None, note=None, **params):
